@@ -99,7 +99,8 @@ P = histprop.HistProp(
                  "RwLock poisoning is excluded (needs an earlier panic)"])
 generate, corpus, known = P.generate, P.corpus, P.known
 ASSUMPTIONS, BUILDS = P.ASSUMPTIONS, P.BUILDS
-RULE = P.RULE + ("; the ASYNC API: the same cases through the async port on a current-thread tokio runtime and under "
+RULE = P.RULE + ("; EmbeddedFS: every observer and mutator on every path of the C18 universe (near misses and backslash "
+                 "aliases of embedded paths included) and read-handle scripts, debug and release; the ASYNC API: the same cases through the async port on a current-thread tokio runtime and under "
                  "futures::executor::block_on, i.e. with NO tokio runtime entered (code that reaches for one must degrade to "
                  "an error): any panic is a violation")
 
@@ -144,8 +145,35 @@ def async_panics(cases):
     return out, n
 
 
+def embedded_panics(tier):
+    """EmbeddedFS: every observer on every path of the C18 universe (embedded files, implied directories, the root,
+    near misses, names with a backslash where an embedded path has a separator), read handles, every mutator - no panic,
+    in a debug and in a release build"""
+    import random
+    from props import c18
+    cases = c18.gen_cases(random.Random(13), "quick")
+    by = {c.name: c for c in cases}
+    text = "".join(c.text() for c in cases)
+    out, n = [], 0
+    for rel in (False, True):
+        mlines, ilines = vfx.run_both(text, "c13e%d" % rel, release=rel)
+        for (kind, cname, step), line in sorted(ilines.items(), key=lambda kv: (kv[0][1], kv[0][2])):
+            if kind != "r":
+                continue
+            n += 1
+            if line.startswith("panic") and not any(x["case"] == cname for x in out):
+                c = by[cname]
+                out.append({"case": cname, "case_text": c.text(), "step": step, "op": c.ops[step] + ("  [release]" if rel else "  [debug]"),
+                            "model": mlines.get(("r", cname, step)), "impl": line, "violates": True,
+                            "note": "panic on an EmbeddedFS at `%s`" % c.ops[step][:80]})
+    return out, n
+
+
 def run_and_compare(cases, tier):
     res = P.run_and_compare(cases, tier)
+    edis, en = embedded_panics(tier)
+    res["disagreements"] += edis
+    res["stats"].setdefault("distribution", {})["embedded_calls_checked_for_panics"] = en
     dis, n = async_panics([c for c in cases if getattr(c, "cfg", None) is not None])
     res["disagreements"] += dis
     res["stats"]["evaluations"] = res["stats"].get("evaluations", 0) + n
